@@ -41,7 +41,7 @@ ASSUMPTIONS = [
 
 
 def GATES(tier):
-    return [("copies_judged", 300), ("identity_graphs_compared", 300), ("followup_mutations", 500), ("dnc_attrs_checked", 10), ("kind:deepcopy", 10), ("dnc_with_subclass_cases", 5), ("dnc_inherited_attr_cases", 3), ("noargs_forms", 20), ("shallow_transforms", 10)] + [
+    return [("copies_judged", 300), ("identity_graphs_compared", 300), ("followup_mutations", 500), ("dnc_attrs_checked", 10), ("kind:deepcopy", 10), ("dnc_with_subclass_cases", 5), ("dnc_inherited_attr_cases", 3), ("noargs_forms", 20), ("shallow_transforms", 10), ("bare_redeclared_dnc_attr", 3)] + [
         (f"kind:{hk}", 5) for hk in dr.HELPER_KINDS
     ]
 
@@ -126,7 +126,13 @@ def run(ctx, params):
     rng = ctx.rng
     for ci in range(params["cases"]):
         mixed = rng.random() < 0.3
-        decl = cg.gen_module(rng, {"frozen": False, "dnc_with_subclasses": mixed})
+        decl = cg.gen_module(rng, {"frozen": False, "dnc_with_subclasses": mixed, "redeclare_dnc": 0.5, "bare_redeclaration": 0.4})
+        for c in decl.classes:
+            for a in c.attrs:
+                if a.bare:
+                    ctx.count("bare_redeclaration_modules")
+                    if decl.dnc_status(c.name, a.name) is True:
+                        ctx.count("bare_redeclared_dnc_attr")
         world = cg.World(decl)
         # do_not_copy x subclassing: a subclass that does not pass do_not_copy inherits the parent's settings, one that
         # passes a list decides for the attributes it names (see classgen.dnc_status)
